@@ -20,6 +20,7 @@ type verifWorld struct {
 	commitSeq map[string][]int64
 	pool      pool
 	capacity  int
+	got       int // events handed out by the pool to the reader
 
 	splitParent map[int64]bool // offsets of events the split action made parents
 }
@@ -67,7 +68,11 @@ func (in *verifInput) Commit(e *Event) {
 	}
 	w.commitSeq[st] = append(seq, off)
 	// C05
-	vf.Assert(w.pool.inUse() <= int64(w.capacity), "in-use-within-capacity")
+	// events held = handed out by the pool and neither committed nor dropped yet (a ghost count: the
+	// standard pool's own counter is decremented after the slot is already free again, so it can
+	// read capacity+1 for an instant although no more than capacity events exist)
+	held := w.got - len(w.committed) - len(w.dropped)
+	vf.Assert(held <= w.capacity, "in-use-within-capacity")
 }
 
 // output plugin stub: everything goes to a real Batcher
@@ -254,6 +259,7 @@ func VerifH_C01_pipeline() {
 	go func() {
 		for i := 1; i <= K; i++ {
 			e := p.eventPool.get(1)
+			vf.Atomic(func() { w.got++ })
 			name := "a"
 			if i == other {
 				name = "b"
@@ -279,6 +285,7 @@ func VerifH_C01_pipeline() {
 				vf.Atomic(func() {
 					w.order = w.order[:len(w.order)-1]
 					delete(w.streamOf, off)
+					w.got-- // the refused event went straight back to the pool
 				})
 				vf.Reach("refused-by-input")
 			}
